@@ -1,4 +1,158 @@
+(* C20 -- everything the USB2 device transmits is a well-formed, solicited packet  (PARTIAL, see below).
+   Model and specification: Model/C20_TxPath.v.  One list element = one `usb` clock cycle.
+
+   What is a THEOREM here (about the hand models; tied to the code by props/C20.py):
+     1-3  the one-hot multiplexer (OneHotMultiplexer / UTMIInterfaceMultiplexer, any number of sources): with mutually
+          exclusive valids the output IS the valid source; with none valid it is idle; with two valid it carries source
+          0's data -- so exclusion is necessary, not a formality;
+     4-6  the transmit path of USBDevice (handshake generator + data generator + shared CRC16 unit fed from the
+          multiplexer output + chirp source): under the request discipline txq_env it equals, cycle by cycle, the
+          bus-owner specification built from the C04 and C03 specification machines; its three sources are never
+          valid together; every completed maximal tx_valid run hands the PHY exactly one well-formed packet
+          (a handshake byte, or PID ++ payload ++ CRC16(payload));
+     7    the boolean packet checker used by the run-time observers decides the declarative predicate wf_tx_packet.
+   What is only MONITORED on simulator runs of the complete device (props/C20.py, observers c20_wire_mon / c20_disc_mon):
+     that the endpoints respect the request discipline, that every transmission is solicited by a token / data packet
+     addressed to the device, and that it never overlaps rx_active.  These are not proved.                          *)
 From Coq Require Import NArith List Bool. Import ListNotations.
 From LunaLib Require Import Netlist Machine.
-From LunaModel Require Import C20_TxPath C20_TxPath_proofs.
+From LunaModel Require Import Crc Handshake Usb2DataTx TokenDet C20_TxPath C20_TxPath_proofs.
 Open Scope N_scope.
+
+(* 1. exactly one source valid (or-signals of the others low): the multiplexer output is that source, for any
+      number of sources and any data *)
+Theorem C20_mux_exclusive : forall (l : list ohm_src) j, (j < length l)%nat -> s_valid (src_at l j) = true ->
+  (forall j', j' <> j -> s_valid (src_at l j') = false /\ s_or (src_at l j') = 0) ->
+  ohm_out l = src_at l j.
+Proof. exact ohm_exclusive. Qed.
+Print Assumptions C20_mux_exclusive.
+
+(* 2. no source valid: the output is not valid *)
+Theorem C20_mux_idle : forall l, (forall j, s_valid (src_at l j) = false) -> s_valid (ohm_out l) = false.
+Proof. exact ohm_none. Qed.
+Print Assumptions C20_mux_idle.
+
+(* 3. two sources valid together: valid is high and the data lines are source 0's (Encoder reports "invalid", o = 0),
+      whether or not source 0 is transmitting -- the merged packet belongs to nobody *)
+Theorem C20_mux_overlap : forall l j k, (j < length l)%nat -> (k < length l)%nat -> j <> k ->
+  s_valid (src_at l j) = true -> s_valid (src_at l k) = true ->
+  s_valid (ohm_out l) = true /\ s_data (ohm_out l) = s_data (src_at l 0).
+Proof. exact ohm_overlap. Qed.
+Print Assumptions C20_mux_overlap.
+
+(* 4. transmit path = bus-owner specification, every cycle of every request history that respects the discipline
+      (tx_data compared only while tx_valid is high) *)
+Theorem C20_txpath_refines : forall tr, tenv_ok txq_tstep txq_env txq_init tr = true ->
+  map txp_norm (trun txp_tstep txp_init tr) = trun txq_tstep txq_init tr.
+Proof. exact txp_from_reset. Qed.
+Print Assumptions C20_txpath_refines.
+
+(* 5. per pair of transmitters: (reset sequencer, data generator), (reset sequencer, handshake generator),
+      (data generator, handshake generator) are never valid in the same cycle *)
+Theorem C20_txpath_exclusive : forall tr, tenv_ok txq_tstep txq_env txq_init tr = true ->
+  forallb at_most_one (trun txp_tstep txp_init tr) = true.
+Proof. exact txp_exclusive. Qed.
+Print Assumptions C20_txpath_exclusive.
+
+(* 6. outside reset chirping, the bytes the PHY accepts in each completed maximal tx_valid run form one well-formed
+      packet *)
+Theorem C20_txpath_runs_wellformed : forall tr, tenv_ok txq_tstep txq_env txq_init tr = true -> nochirp tr ->
+  Forall wf_tx_packet (tx_runs None (combine tr (trun txp_tstep txp_init tr))).
+Proof. exact txp_runs_wellformed. Qed.
+Print Assumptions C20_txpath_runs_wellformed.
+
+(* 7. the checker the observers evaluate is the declarative predicate *)
+Theorem C20_checker_correct : forall l, wf_tx_packetb l = true <-> wf_tx_packet l.
+Proof. exact wf_tx_packetb_spec. Qed.
+Print Assumptions C20_checker_correct.
+
+(* 8. the observer state survives its N packing (the oracle runs the typed observer) *)
+Theorem C20_observer_packing : forall s, w_wf s -> w_dec (w_enc s) = s.
+Proof. exact w_dec_enc. Qed.
+Print Assumptions C20_observer_packing.
+
+(* ---- concrete runs (non-vacuity) ---------------------------------------------------------------------- *)
+(* request word: ack nak stall | dpid | valid first last | payload | tx_ready | rx_valid *)
+Definition c20_in (ack nak stall dpid v f l pl rdy rxv : N) : N :=
+  ack + 2 * nak + 4 * stall + 8 * dpid + 32 * v + 64 * f + 128 * l + 256 * pl + 65536 * rdy + 131072 * rxv.
+
+(* an ACK (PHY ready two cycles later), then a DATA1 packet with payload 80 06, then a NAK: disciplined *)
+Definition c20_good : list N :=
+  [c20_in 1 0 0 0 0 0 0 0 0 0;                             (* ACK requested *)
+   c20_in 0 0 0 0 0 0 0 0 0 0; c20_in 0 0 0 0 0 0 0 0 1 0; (* offered, taken *)
+   c20_in 0 0 0 0 0 0 0 0 1 0;
+   c20_in 0 0 0 1 1 1 0 128 1 0;                           (* data request *)
+   c20_in 0 0 0 1 1 1 0 128 1 0;                           (* PID taken *)
+   c20_in 0 0 0 1 1 1 0 128 0 0; c20_in 0 0 0 1 1 1 0 128 1 0;   (* 80 taken on the 2nd cycle *)
+   c20_in 0 0 0 1 1 0 1 6 1 0;                             (* 06, last *)
+   c20_in 0 0 0 0 0 0 0 0 1 0; c20_in 0 0 0 0 0 0 0 0 1 0; (* CRC low, high *)
+   c20_in 0 0 0 0 0 0 0 0 1 0;
+   c20_in 0 1 0 0 0 0 0 0 1 0;                             (* NAK requested *)
+   c20_in 0 0 0 0 0 0 0 0 1 0; c20_in 0 0 0 0 0 0 0 0 1 0].
+
+Example C20_good_env : tenv_ok txq_tstep txq_env txq_init c20_good = true.
+Proof. vm_compute. reflexivity. Qed.
+Example C20_good_runs :
+  tx_runs None (combine c20_good (trun txp_tstep txp_init c20_good))
+  = [[hs_byte ACK]; tx_wire 75 [128; 6]; [hs_byte NAK]].
+Proof. vm_compute. reflexivity. Qed.
+Example C20_good_checked :
+  forallb wf_tx_packetb (tx_runs None (combine c20_good (trun txp_tstep txp_init c20_good))) = true.
+Proof. vm_compute. reflexivity. Qed.
+
+(* an ACK requested while a payload byte waits for the PHY: the discipline is broken, two sources are valid together,
+   the PHY is handed source 0's data (00) instead of the payload byte 80 -- the packet is "well-formed" (the CRC unit
+   sees the multiplexer output) but carries a byte nobody sent, and the ACK is lost *)
+Definition c20_bad : list N :=
+  [c20_in 0 0 0 1 1 1 0 128 1 0; c20_in 0 0 0 1 1 1 0 128 1 0;
+   c20_in 1 0 0 1 1 1 0 128 0 0;                           (* ACK request during the payload, PHY not ready *)
+   c20_in 0 0 0 1 1 1 0 128 1 0;
+   c20_in 0 0 0 1 1 0 1 6 1 0;
+   c20_in 0 0 0 0 0 0 0 0 1 0; c20_in 0 0 0 0 0 0 0 0 1 0; c20_in 0 0 0 0 0 0 0 0 1 0; c20_in 0 0 0 0 0 0 0 0 1 0].
+Example C20_bad_env : tenv_ok txq_tstep txq_env txq_init c20_bad = false.
+Proof. vm_compute. reflexivity. Qed.
+Example C20_bad_overlaps : forallb at_most_one (trun txp_tstep txp_init c20_bad) = false.
+Proof. vm_compute. reflexivity. Qed.
+Example C20_bad_merged :
+  tx_runs None (combine c20_bad (trun txp_tstep txp_init c20_bad)) = [tx_wire 75 [0; 6]].
+Proof. vm_compute. reflexivity. Qed.
+(* the same with the ACK requested while the PID byte waits: the PID is replaced by 00 -- not a packet at all *)
+Definition c20_bad2 : list N :=
+  [c20_in 0 0 0 1 1 1 0 128 1 0;
+   c20_in 1 0 0 1 1 1 0 128 0 0;                           (* ACK request while the PID byte waits for the PHY *)
+   c20_in 0 0 0 1 1 1 0 128 1 0;
+   c20_in 0 0 0 1 1 1 0 128 1 0;
+   c20_in 0 0 0 1 1 0 1 6 1 0;
+   c20_in 0 0 0 0 0 0 0 0 1 0; c20_in 0 0 0 0 0 0 0 0 1 0; c20_in 0 0 0 0 0 0 0 0 1 0; c20_in 0 0 0 0 0 0 0 0 1 0].
+Example C20_bad2_malformed :
+  forallb wf_tx_packetb (tx_runs None (combine c20_bad2 (trun txp_tstep txp_init c20_bad2))) = false.
+Proof. vm_compute. reflexivity. Qed.
+(* receive bytes while a data packet is being sent corrupt its CRC (the CRC unit gives rx_valid priority): the
+   half-duplex hypothesis is needed for well-formedness, not only for politeness *)
+Definition c20_rx_during_tx : list N :=
+  [c20_in 0 0 0 1 1 1 0 128 1 0; c20_in 0 0 0 1 1 1 0 128 1 0;
+   c20_in 0 0 0 1 1 1 0 128 1 1;                           (* utmi.rx_valid while 80 is on the bus *)
+   c20_in 0 0 0 1 1 0 1 6 1 0;
+   c20_in 0 0 0 0 0 0 0 0 1 0; c20_in 0 0 0 0 0 0 0 0 1 0; c20_in 0 0 0 0 0 0 0 0 1 0].
+Example C20_rx_during_tx_malformed :
+  forallb wf_tx_packetb (tx_runs None (combine c20_rx_during_tx (trun txp_tstep txp_init c20_rx_during_tx))) = false.
+Proof. vm_compute. reflexivity. Qed.
+
+(* the wire observer on a hand-made complete-device trace: IN token for address 0, endpoint 0; NAK in reply: accepted;
+   the same reply without the token: rejected as unsolicited.
+   device inputs: rx_active + 2 rx_valid + 4 rx_data + 1024 tx_ready; outputs: tx_valid + 2 tx_data + 512 srcs(3) + 4096 addr *)
+Definition c20_dev_in (act val dat rdy : N) : N := act + 2 * val + 4 * dat + 1024 * rdy.
+Definition c20_dev_out (txv txd srcs : N) : N := txv + 2 * txd + 512 * srcs.
+Definition c20_tok_ios : list (N * N) :=
+  [(c20_dev_in 1 0 0 1, 0); (c20_dev_in 1 1 105 1, 0); (c20_dev_in 1 1 0 1, 0); (c20_dev_in 1 1 16 1, 0);
+   (c20_dev_in 0 0 0 1, 0); (c20_dev_in 0 0 0 1, 0); (c20_dev_in 0 0 0 1, 0);
+   (c20_dev_in 0 0 0 0, c20_dev_out 1 90 4); (c20_dev_in 0 0 0 1, c20_dev_out 1 90 4); (c20_dev_in 0 0 0 1, 0)].
+Example C20_observer_accepts : first_bad (c20_wire_mon 16) 0 (w_enc w_init) c20_tok_ios = None.
+Proof. vm_compute. reflexivity. Qed.
+Example C20_observer_rejects_unsolicited :
+  first_bad (c20_wire_mon 16) 0 (w_enc w_init) (skipn 5 c20_tok_ios) = Some 2.
+Proof. vm_compute. reflexivity. Qed.
+Example C20_observer_rejects_overlap :
+  first_bad (c20_wire_mon 16) 0 (w_enc w_init)
+            [(c20_dev_in 1 0 0 1, 0); (c20_dev_in 1 1 105 1, c20_dev_out 1 90 4)] = Some 1.
+Proof. vm_compute. reflexivity. Qed.
